@@ -24,6 +24,10 @@ struct World {
     acked: std::collections::HashSet<u64>,
     refused: usize,
     executed: usize,
+    /// payload mode (schedules with LateProposal / PayloadResume): every block carries at least one batch; a batch is written
+    /// to a node's store when the schedule says that node has it
+    payloads: bool,
+    fed: u64,
 }
 
 impl World {
@@ -51,6 +55,30 @@ impl World {
                     Some(ConsensusMessage::TC(t)) => self.tcs.push((f, t)),
                     _ => (),
                 }
+            }
+        }
+    }
+
+    /// hand a fresh batch digest to node i's proposer (as its mempool would), so that its next block has a payload
+    fn feed(&mut self, i: usize) {
+        if !self.payloads || !self.rig.is_real(i) {
+            return;
+        }
+        self.fed += 1;
+        let d = crate::rig::sha(&[b"fed-batch", &self.fed.to_le_bytes(), &(i as u64).to_le_bytes()]);
+        // as the node's own Processor does: the batch is in the creator's store before consensus learns its digest
+        self.rig.store_write(i, d.to_vec(), vec![1]);
+        if let Some(nd) = self.rig.nodes[i].as_ref() {
+            let _ = nd.tx_m2c.try_send(d);
+        }
+        self.rig.pump(i);
+    }
+
+    /// node n obtains the batches of block b
+    fn make_available(&mut self, n: usize, b: &Block) {
+        for d in &b.payload {
+            if self.rig.store_read(n, d.to_vec()).is_none() {
+                self.rig.store_write(n, d.to_vec(), vec![1]);
             }
         }
     }
@@ -132,13 +160,16 @@ impl World {
         let parent_hash = if Self::is_genesis(&v[3]) { Digest::default() } else { parent.digest() };
         if self.byz.contains(&author) {
             let qc = if Self::is_genesis(&v[3]) { QC::genesis() } else { self.qc_for(&parent) };
-            let payload: Vec<Digest> = (0..variant)
+            let nb = if self.payloads { variant + 1 } else { variant };
+            let payload: Vec<Digest> = (0..nb)
                 .map(|k| crate::rig::sha(&[b"variant", &round.to_le_bytes(), &k.to_le_bytes()]))
                 .collect();
-            // make the payload available at every real node (C01 is not about data availability)
-            for d in &payload {
-                for i in 0..self.rig.cfg.n {
-                    self.rig.store_write(i, d.to_vec(), vec![1]);
+            // make the payload available at every real node (unless the schedule decides who has which batch)
+            if !self.payloads {
+                for d in &payload {
+                    for i in 0..self.rig.cfg.n {
+                        self.rig.store_write(i, d.to_vec(), vec![1]);
+                    }
                 }
             }
             let b = self.rig.make_block(author, round, qc, None, payload);
@@ -172,6 +203,17 @@ impl World {
         match a.as_str() {
             "Propose" | "Loopback" | "SyncResume" => {
                 self.rig.pump(n);
+                if a == "Propose" {
+                    self.feed(n);
+                }
+            }
+            "PayloadResume" => {
+                let b = match self.resolve(&act["blk"]) {
+                    Some(b) => b,
+                    None => return self.refuse(i, act, "block does not exist"),
+                };
+                self.make_available(n, &b);
+                self.rig.pump(n);
             }
             "Timer" => self.rig.fire_timer(n),
             "HonestProposal" => {
@@ -180,6 +222,7 @@ impl World {
                     None => return self.refuse(i, act, "no honest node proposed this block"),
                 };
                 let d = b.digest();
+                self.make_available(n, &b);
                 let f = self.props.iter().find(|(f, x)| f.to == n && x.digest() == d).map(|(f, _)| f.clone());
                 match f {
                     Some(f) => {
@@ -191,11 +234,14 @@ impl World {
                     }
                 }
             }
-            "RelayedProposal" | "ByzProposal" => {
+            "RelayedProposal" | "ByzProposal" | "LateProposal" => {
                 let mut b = match self.resolve(&act["blk"]) {
                     Some(b) => b,
                     None => return self.refuse(i, act, "block does not exist"),
                 };
+                if a != "LateProposal" {
+                    self.make_available(n, &b);
+                }
                 b.tc = self.tc_for(&act["tc"]);
                 self.rig.inject_msg(n, &ConsensusMessage::Propose(b));
             }
@@ -314,7 +360,12 @@ pub fn main(rest: &[String]) -> i32 {
             acked: Default::default(),
             refused: 0,
             executed: 0,
+            payloads: acts.iter().any(|x| matches!(x["a"].as_str(), Some("LateProposal") | Some("PayloadResume"))),
+            fed: 0,
         };
+        for i in 0..n {
+            world.feed(i);
+        }
         world.collect();
         for (i, act) in acts.iter().enumerate() {
             world.step(i, act);
